@@ -269,7 +269,8 @@ def _build(rng, n, kind, size, chunk, point, release, sib):
     elif release == "credit":
         client += [["react", "window_update", sid, total], ["react", "window_update", 0, total]]
     elif release == "settings_grow":
-        client += [["react", "settings", {"4": total}], ["react", "window_update", 0, total]]
+        # (h2.stream0 has all the connection-level credit it needs: the growth of the initial window is then the only thing that arrives)
+        client += [["react", "settings", {"4": total}]] + ([["react", "window_update", 0, total]] if kind != "h2.stream0" else [])
     elif release == "rst":
         client += [["react", "rst", sid]]
     elif release == "eof":
